@@ -1220,6 +1220,46 @@ def r15g_gridcompat(repo, sink):
         worst = worst or "a structured grid is compatible with NoGrid"
     sink.check(worst is None, "R15", "compat-table:StructuredGrid", f,
                ok="compatible iff same dimension, CRS, data location, (axis-order aware) data shape and coordinates", bad=worst or "")
+    # unstructured grids: Grid.compatible_with
+    ug = repo.cls("UnstructuredGrid") if repo.has_cls("UnstructuredGrid") else repo.cls("Grid")
+    fu = repo.resolve(ug, "compatible_with", "method")
+
+    def mesh(dim=2, crs=None, order="C", loc="CELLS", shape=(5,), points="P", cells="C", types="T"):
+        o = Obj(cls=ug, label="mesh")
+        o.fields.update(dim=dim, crs=crs, order=order, data_location=Sym("enum", "Location", loc), data_shape=shape,
+                        points=Sym("arr", points), cells=Sym("arr", cells), cell_types=Sym("arr", types))
+        return o
+
+    class _MeshCompat(_GridCompat):
+        def ext_call(self, name, args, kwargs, node):
+            short = name.split(".")[-1]
+            if short in ("allclose", "array_equal", "array_equiv") and all(isinstance(a, Sym) and a.op == "arr" for a in args[:2]):
+                return args[0] == args[1]
+            if short == "all" and isinstance(args[0], bool):
+                return args[0]
+            return super().ext_call(name, args, kwargs, node)
+
+    ubase = dict(dim=2, crs=None, order="C", loc="CELLS", shape=(5,))
+    worst = None
+    # a mesh with as many points as cells: the data shape alone cannot tell point data from cell data
+    for name, delta, check_loc, want in (
+        ("identical", {}, True, True), ("different dimension", {"dim": 3}, True, False), ("different CRS", {"crs": "EPSG:4326"}, True, False),
+        ("different order", {"order": "F"}, True, False),
+        ("point data vs cell data of a mesh with equally many points and cells", {"loc": "POINTS"}, True, False),
+        ("different data location, location not to be checked", {"loc": "POINTS"}, False, True),
+        ("different data shape", {"shape": (7,)}, True, False), ("different points", {"points": "P2"}, True, False),
+        ("different cells", {"cells": "C2"}, True, False), ("different cell types", {"types": "T2"}, True, False),
+    ):
+        it = _MeshCompat(repo)
+        try:
+            got = it.run(fu, [mesh(**{**ubase, **delta})], {"check_location": check_loc}, self_obj=mesh(**ubase))
+        except (Raised, Undecided, AnalysisError) as exc:
+            worst = worst or f"{name}: {exc}"
+            continue
+        if bool(got) != want:
+            worst = worst or f"{name}: compatible_with is {bool(got)}, must be {want}"
+    sink.check(worst is None, "R15", "compat-table:UnstructuredGrid", fu,
+               ok="compatible iff same dimension, CRS, order, data location (when checked), data shape, points, cells and cell types", bad=worst or "")
     # __eq__ additionally requires the same layout
     eq = repo.resolve(sg, "__eq__", "method")
     worst = None
@@ -1297,6 +1337,74 @@ def r15c_copy_with(repo, sink):
     sink.check(worst is None, "R15", "copy_with-table", f,
                ok="copy_with overrides exactly the given fields; with use_none=False unset values never overwrite; the original stays untouched",
                bad=worst or "")
+    # the merge of Input.exchange_info: the delivered info (with a fixed mask, stored in the producer's layout) is copied onto the
+    # consumer's compatible but differently laid-out grid.  This must go through - the real constructor and setters of Info run here.
+    class _R(FinamInterp):
+        def isinstance(self, v, klass, node):
+            from ..loader import Class
+            if isinstance(klass, Class) and klass.name == "GridBase":
+                return isinstance(v, Obj) and v.label.startswith("grid")
+            return super().isinstance(v, klass, node)
+
+        def ext_isinstance(self, v, name, node):
+            if name.endswith("datetime"):
+                return isinstance(v, Sym) and v.op == "time"
+            return super().ext_isinstance(v, name, node)
+
+        def call_hook(self, fv, args, kwargs, node, mod):
+            if isinstance(fv, Closure) and getattr(fv.func, "name", "") == "mask_specified":
+                return isinstance(args[0], Sym) and args[0].op == "maskarr"
+            return super().call_hook(fv, args, kwargs, node, mod)
+
+        def get_attr(self, obj, attr, node, mod):
+            if isinstance(obj, Obj) and obj.label.startswith("grid") and attr in obj.fields:
+                return obj.fields[attr]
+            if isinstance(obj, Sym) and obj.op == "ext" and obj.args[0] in ("np.ma", "numpy.ma") and attr == "nomask":
+                return NOMASK
+            return super().get_attr(obj, attr, node, mod)
+
+        def ext_call(self, name, args, kwargs, node):
+            short = name.split(".")[-1]
+            if name == "copy.copy":
+                return dict(args[0]) if isinstance(args[0], dict) else args[0]
+            if short == "Unit":
+                return Sym("unit", args[0])
+            if short == "make_mask":
+                return args[0]
+            if short == "shape" and isinstance(args[0], Sym) and args[0].op == "maskarr":
+                return args[0].args[1]
+            if short in ("array_equal", "array_equiv"):
+                return tuple(args[0]) == tuple(args[1]) if all(isinstance(a, (tuple, list)) for a in args[:2]) else args[0] == args[1]
+            return super().ext_call(name, args, kwargs, node)
+
+        def construct(self, cls, args, kwargs, node):
+            if cls.name == "Info":
+                o = Obj(cls=cls, label="Info")
+                self.call_func(Closure(self.repo.resolve(cls, "__init__", "method"), self_obj=o), list(args), dict(kwargs), node)
+                return o
+            return super().construct(cls, args, kwargs, node)
+
+    g1, g2 = Obj(label="grid:producer-layout"), Obj(label="grid:consumer-layout")
+    g1.fields.update(data_shape=(3, 2))
+    g2.fields.update(data_shape=(2, 3))
+    why = None
+    try:
+        it = _R(repo)
+        src = it.construct(ic, [], {"time": Sym("time", "T"), "grid": g1, "mask": Sym("maskarr", "M", (3, 2)), "units": "m"}, None)
+        merged = it.run(f, [], {"use_none": False, "time": Sym("time", "T2"), "grid": g2, "units": None}, self_obj=src)
+        mg = it.run(repo.resolve(ic, "grid", "getter"), [], self_obj=merged)
+        mm = it.run(repo.resolve(ic, "mask", "getter"), [], self_obj=merged)
+        if mg is not g2 or mm != Sym("maskarr", "M", (3, 2)):
+            why = f"the copy carries grid {mg!r} and mask {mm!r}; expected the consumer's grid and the delivered mask"
+    except Raised as r:
+        why = (f"copying a delivered info with a fixed mask onto the consumer's compatible grid of the other layout raises {r.name}: "
+               "compatible grids with different layouts can no longer be linked when the producer declares a mask")
+    except (Undecided, AnalysisError) as exc:
+        sink.unknown("R15", "copy_with-relayout", f, f"outside vocabulary: {exc}")
+        why = "skip"
+    if why != "skip":
+        sink.check(why is None, "R15", "copy_with-relayout", f,
+                   ok="a delivered info with a fixed mask can be merged onto a compatible grid of another layout", bad=why or "")
 
 
 # =========================================================================== R16u
@@ -1433,6 +1541,57 @@ def r16u_delivered_units(repo, sink):
             why = "delivers extra metadata taken from the request instead of the source"
         sink.check(why is None, "R16", f"delivered-units:{c.name}", f, ok=f"delivered units {units!r} derive from the source's info", bad=why or "")
     sink.floor("R16", "_get_info overrides interpreted", n, 4)
+
+
+def r35t_crs_direction(repo, sink):
+    """Regridding between different coordinate reference systems: the target locations are looked up in the SOURCE's system, so
+    the transformer handed to _do_transform goes from the target grid's CRS to the source grid's CRS."""
+    if not repo.has_cls("ARegridding"):
+        return
+    a = repo.cls("ARegridding")
+    concrete = [k for k in repo.subclasses(a) if not repo.is_abstract(k)]
+    f = repo.resolve(a, "_get_info", "method")
+    if not concrete or f is None:
+        return
+
+    class _G(_GetInfoInterp):
+        def call_hook(self, fv, args, kwargs, node, mod):
+            if isinstance(fv, Closure) and getattr(fv.func, "name", "") in ("_update_grid_specs", "_check_and_set_out_mask"):
+                return None
+            if isinstance(fv, Closure) and getattr(fv.func, "name", "") == "_create_transformer":
+                return self.call_func(fv, args, kwargs, node)  # the real helper, with pyproj as uninterpreted terms
+            return super().call_hook(fv, args, kwargs, node, mod)
+
+        def get_attr(self, obj, attr, node, mod):
+            if isinstance(obj, Sym) and str(obj.op).startswith("G_") and attr == "crs":
+                return Sym("crs_of", obj)
+            return super().get_attr(obj, attr, node, mod)
+
+        def ext_call(self, name, args, kwargs, node):
+            if name.endswith("CRS"):
+                return args[0]
+            if name.endswith("from_crs"):
+                return Sym("transformer", args[0], args[1])
+            return super().ext_call(name, args, kwargs, node)
+
+    k = concrete[0]
+    req = _stub(Sym("u_requested"), Sym("G_req"), {}, "req")
+    dlv = _stub(Sym("u_delivered"), Sym("G_in"), {}, "dlv")
+    me = Obj(cls=k, label=k.name)
+    me.fields.update(logger=Logger(label="logger"), input_grid=None, output_grid=None, output_mask=None, input_mask=None, downstream_mask=None,
+                     _is_initialized=False, transformer=None, input_meta=None, _out_mask_checked=False)
+    it = _G(repo, dlv)
+    try:
+        it.run(f, [req], self_obj=me)
+    except (Raised, Undecided, AnalysisError) as exc:
+        sink.unknown("R35", "crs-direction", f, f"_get_info outside vocabulary: {exc}")
+        return
+    tr = me.fields.get("transformer")
+    want = Sym("transformer", Sym("crs_of", Sym("G_req")), Sym("crs_of", Sym("G_in")))
+    sink.check(tr == want, "R35", "crs-direction", f,
+               ok="target locations are transformed from the target grid's CRS into the source grid's CRS before the neighbour search",
+               bad=f"the coordinate transformer is {tr!r}; the target locations must be brought from the target's CRS into the source's CRS "
+                   "(the other direction places every target far outside the source grid)")
 
 
 # =========================================================================== R37p
